@@ -266,7 +266,7 @@ theorem init_inv (g : Graph) (hg : GraphOK g) (lim : Option Nat) : Inv g lim (in
 
 theorem inv_step {g : Graph} {lim : Option Nat} {s s' : St} {l : Label} (hg : GraphOK g)
     (h : Step g lim s l s') (hI : Inv g lim s) : Inv g lim s' :=
-  ⟨invA_step h hI.a, invB_step hg h hI.a hI.b, invL_step h hI.a hI.l, invE_step h hI.a hI.e, invS_step hg h hI.a hI.b hI.s⟩
+  ⟨invA_step h hI.a, invB_step hg h hI.a hI.b, invL_step h hI.a hI.b hI.l, invE_step h hI.a hI.e, invS_step hg h hI.a hI.b hI.s⟩
 
 theorem reach_inv {g : Graph} {lim : Option Nat} (hg : GraphOK g) {s : St} (h : Reach g lim s) : Inv g lim s := by
   induction h with
